@@ -1,7 +1,7 @@
 """C29 — networks deliver every message exactly once with metadata intact
 (spec/noc/Net.tla, spec/noc/NetTrace.tla; harness family nettrace, driver net_trace)."""
 import copy, json, os
-from vlib import core, tracepar
+from vlib import core, tracepar, switchint
 
 LEVEL = "exploration"
 TECHNIQUE = ("TLA+ specification of a network as a multiset of in-flight messages (Net.tla) model-checked with TLC, fault-injection "
@@ -20,7 +20,7 @@ LEVEL_TEXT = ("Net.tla states the statement on a multiset of in-flight messages 
 LEVEL_NOTE = ("The model-checked part is the oracle only (tiny instance); the networks are explored by seeded runs, not exhaustively. "
               "Only connector-built topologies; ideal (direct-connection) links only — the NVLink connector's Ethernet links are not "
               "implemented in the repository (IsIdeal=false panics) and are not used. Payloads are not part of the statement (the network "
-              "model carries metadata only).")
+              "model carries metadata only). " + switchint.NOTE)
 
 CLASSES = {"foreign_delivery", "metadata_changed", "duplicate_delivery", "phantom_delivery", "undelivered_at_quiescence",
            "not_quiescent_within_bound"}
@@ -86,7 +86,9 @@ def run(ck):
                       "(2) seeded real networks (kinds rotate: mesh2d, mesh3d, pcie tree, nvlink hybrid, mesh2d, ring, generic tree/star/line, "
                       "random graph) run to quiescence on the serial engine; one record per device-port send / delivery; TLC validates each "
                       "chunk with NetTrace.tla. Counted per network; non-trivial = a network with at least two devices whose traffic "
-                      "contains messages of more than two flits and in which messages were delivered.")
+                      "contains messages of more than two flits and in which messages were delivered. (3) internals (beyond the statement): the State "
+                      "of every switch and endpoint of the same runs, sampled every N-th handled event (capped) and at rest, judged by the rules of "
+                      "SwitchInternals.tla; negative controls: every rule must reject exactly its hand-corrupted sample.")
     ck.assumptions += ["message IDs are unique per sender (timing ID generator)", "devices keep draining: a stalled device resumes; checked by the driver (held=0 at quiescence)",
                        "run bound = 1000x the serial transfer time of the traffic; a mesh/tree network still busy then is reported as not quiescent"]
     if not os.environ.get("VERIF_SKIP_MODEL"):   # development aid (sensitivity runs): the model part does not depend on /repo
@@ -94,13 +96,16 @@ def run(ck):
     networks, msgs, chunk = (8, 200, 8) if quick else (100, 2000, 10)
     binary = ck.binary("nettrace")
     d = core.scratch("c29-")
-    traces, outs = [], []
+    traces, outs, int_jobs = [], [], []
     for first in range(0, networks, chunk):
         n = min(chunk, networks - first)
         path = os.path.join(d, "net_%03d.ndjson" % first)
-        out = core.harness(binary, "net_trace", dict(seed=ck.seed, networks=n, msgs=msgs, first=first, out=path), timeout=1500)
+        inp = dict(seed=ck.seed, networks=n, msgs=msgs, first=first, out=path,
+                   **switchint.payload(os.path.join(d, "int_%03d.ndjson" % first), 400 if quick else 4000, 8 if quick else 5))
+        out = core.harness(binary, "net_trace", inp, timeout=1500)
         traces.append(path)
         outs.append(out)
+        int_jobs.append((inp, out))
     verdicts = tracepar.validate_many(ck, ["noc", "common"], "NetTrace", "NetTrace.cfg", traces, parallel=3 if quick else 8, timeout=1500)
     selftest(ck, traces[0])
     total_events = nontrivial = other_undelivered = 0
@@ -137,5 +142,7 @@ def run(ck):
         ck.sample({"trace_excerpt": outs[0]["sample"][:8]})
         ck.sample({"network": {k: outs[0]["specs"][0][k] for k in ("kind", "shape", "dims", "flit_size", "bandwidth", "sw_latency", "pattern") if k in outs[0]["specs"][0]},
                    "result": outs[0]["infos"][0]})
+    # beyond the statement: consistency of the switches' and endpoints' own State on the same runs (SwitchInternals.tla)
+    switchint.evaluate(ck, int_jobs, parallel=3 if quick else 8)
     ck.note("%d networks, %d events validated, shapes %s, %d cyclic networks left messages undelivered (allowed)" % (
         networks, total_events, shapes, other_undelivered))
